@@ -791,7 +791,7 @@ class TT():
                 result = TT(cores_new)
             else:
                 result = TT([tn.zeros((1, self.M[i], self.N[i], 1) if self.is_ttm else (
-                    1, self.N[i], 1), device=self.cores[0].device, dtype=self.cores[0].dtype) for i in range(len(self.N))])
+                    1, self.N[i], 1), device=self.cores[0].device, dtype=(self.cores[0]*other).dtype) for i in range(len(self.N))])
                 # result = zeros([(m,n) for m,n in zip(self.M,self.N)] if self.is_ttm else self.N, device=self.cores[0].device)
         else:
             raise InvalidArguments(
